@@ -1,7 +1,7 @@
 (** General termination of the mailbox machine: every schedule of every population of client threads has
     at most quadratically many effective steps.  Potential-function proof with one ghost bit per thread. *)
-From Coq Require Import List NArith ZArith Bool Lia Arith.
-From Vivid Require Import Mailbox.MbModel Mailbox.MbSpec Mailbox.MbSpec2 Mailbox.MbInv.
+From Coq Require Import List NArith ZArith Bool Lia Arith ZifyBool.
+From Vivid Require Import Mailbox.MbModel Mailbox.MbSpec Mailbox.MbSpec2 Mailbox.MbInv Mailbox.MbOrder.
 Import ListNotations.
 Local Open Scope Z_scope.
 
@@ -204,6 +204,12 @@ Proof.
   specialize (H ltac:(intros j q Hj _; rewrite (Hg j Hj), Ho; lia) ltac:(lia)). lia.
 Qed.
 
+Ltac evs Hp :=
+  unfold W, Wp, EV, GM, lenz in *; cbn [thr set_thr sq uq sysnum num paused status log];
+  rewrite ?sumz_app, ?cnt_app, ?(sumz_upd _ _ _ _ _ Hp), ?(cnt_upd _ _ _ _ _ Hp), ?app_length;
+  cbn [sumz cnt envrem is_decp is_held env_active env_pc tenv tproc stalep b2z length];
+  repeat match goal with H : _ = _ :> list _ |- _ => rewrite H in * end; cbn [length].
+
 (** * every step decreases the measure *)
 Lemma phi_step i s s' g : Inv s -> (nth_error (thr s) i = Some PStoreIdle -> g i = true) ->
   step i s = Some s' -> Phi s' (gnext i s g) < Phi s g.
@@ -220,14 +226,187 @@ Proof.
   1: pose proof (cnt_pos bad_pc _ _ _ Hp) as Hbp;
      destruct k; cbn [bad_pc] in Hbp; try (specialize (Hbp eq_refl); lia); clear Hbp.
   all: unfold gnext; rewrite Hp; cbn [is_event env_active env_pc is_decp orb].
+  all: try (rewrite (HK eq_refl) in *).
   all: first
     [ eapply (phi_event_spawn _ _ _ _ _ _ _ Hp); [reflexivity | apply W_event2 | ]
-    | eapply (phi_event _ _ _ _ _ _ Hp); [reflexivity | first [apply W_event2 | apply W_event1] .. | ]
-    | eapply (phi_quiet _ _ _ _ _ _ _ Hp); [reflexivity | apply W_same | intros j Hj; try reflexivity | ] ].
-  all: unfold W, Wp, EV, GM, lenz in *; cbn [thr set_thr sq uq sysnum num paused status log];
-       rewrite ?sumz_app, ?cnt_app, ?(sumz_upd _ _ _ _ _ Hp), ?(cnt_upd _ _ _ _ _ Hp), ?app_length;
-       cbn [sumz cnt envrem is_decp is_held env_active env_pc tenv tproc stalep b2z length];
-       repeat match goal with H : _ = _ :> list _ |- _ => rewrite H in * end; cbn [length];
-       try lia.
-  Show.
-Abort.
+    | eapply (phi_event _ _ _ _ _ _ Hp);
+      [reflexivity
+      | first [ apply W_event2; evs Hp; lia
+              | apply W_event1; [evs Hp; lia | cbn [set_thr sysnum]; lia | cbn [set_thr num]; lia
+                                | cbn [set_thr paused]; auto ] ]
+      | ]
+    | eapply (phi_quiet _ _ _ _ _ _ _ Hp);
+      [reflexivity | apply W_same; [evs Hp; lia | reflexivity ..]
+      | intros j Hj; try reflexivity; rewrite (proj2 (Nat.eqb_neq j i) Hj); reflexivity | ] ].
+  all: evs Hp; rewrite ?Nat.eqb_refl; try lia.
+  all: destruct (g i); cbn [b2z]; try lia; try discriminate (HK eq_refl).
+  all: repeat match goal with
+       | |- context [0 <? ?x] => destruct (Z.ltb_spec 0 x)
+       end; destruct (paused s); cbn [negb andb orb b2z] in *; lia.
+Qed.
+
+(** * the ghost invariant: a thread with no event since its last store still has the reason of its
+      wake-up decision in front of it *)
+Definition Kc (s : st) (p : pc) : Prop :=
+  match p with
+  | PStoreIdle | HSysHandle _ | HUserHandle _ | Start HSysPop => False
+  | HSysPop => 1 <= lenz (sq s) \/ (1 <= lenz (uq s) /\ paused s = false)
+  | HLoadPaused => 1 <= lenz (uq s) /\ paused s = false
+  | HUserPop => 1 <= lenz (uq s)
+  | PLoadSys u => 0 < u -> 1 <= lenz (uq s) + cnt (at_dec false) (thr s)
+  | PLoadPaused u => 1 <= lenz (uq s) + cnt (at_dec false) (thr s)
+  | PCas => 1 <= lenz (sq s) + cnt (at_dec true) (thr s) \/
+            (1 <= lenz (uq s) + cnt (at_dec false) (thr s) /\ paused s = false)
+  | _ => True
+  end.
+Definition K (s : st) (g : nat -> bool) : Prop :=
+  forall i p, nth_error (thr s) i = Some p -> g i = false -> Kc s p.
+
+Lemma K_step j s s' g : Inv s -> K s g -> step j s = Some s' -> K s' (gnext j s g).
+Proof.
+  intros HI HK Hs i p' Hi' Hg'. destruct HI as [Hwf Ho Hn Hy _ _].
+  pose proof (dec_le_owner true (thr s)) as Hdo1.
+  pose proof (dec_le_owner false (thr s)) as Hdo2.
+  pose proof (cnt_nonneg (at_dec true) (thr s)) as Hd1.
+  pose proof (cnt_nonneg (at_dec false) (thr s)) as Hd2.
+  pose proof (cnt_nonneg (at_sadd true) (thr s)) as Ha1.
+  pose proof (cnt_nonneg (at_sadd false) (thr s)) as Ha2.
+  assert (Hb : 0 <= b2z (status s) <= 1) by apply b2z_range.
+  step_cases Hs Hp.
+  1: pose proof (cnt_pos bad_pc _ _ _ Hp) as Hbp;
+     destruct k; cbn [bad_pc] in Hbp; try (specialize (Hbp eq_refl); lia); clear Hbp.
+  all: unfold gnext in Hg'; rewrite Hp in Hg'; cbn [is_event env_active env_pc is_decp orb] in Hg'; try discriminate Hg'.
+  all: cbn [thr set_thr] in Hi'; destruct (Nat.eq_dec i j) as [->|Hij].
+  all: try (rewrite (nth_error_upd_eq _ _ _ _ Hp) in Hi'; inversion Hi'; subst p'; clear Hi').
+  all: try (rewrite (nth_error_upd_ne _ _ _ _ Hij) in Hi'; rewrite ?(proj2 (Nat.eqb_neq i j) Hij) in Hg').
+  all: try (pose proof (HK i p' Hi' Hg') as Hk;
+            pose proof (fun H1 H2 => cnt_two owner_pc _ _ _ _ _ Hij Hi' Hp H1 H2) as Hex;
+            destruct p'; cbn [Kc owner_pc] in Hk, Hex |- *; try exact I; try (destruct Hk; fail);
+            try (specialize (Hex eq_refl eq_refl))).
+  all: try (pose proof (HK j _ Hp Hg') as Hk; cbn [Kc] in Hk).
+  all: cbn [Kc]; unfold lenz in *; cbn [thr set_thr sq uq paused sysnum num] in *;
+       rewrite ?(cnt_upd _ _ _ _ _ Hp); cbn [at_dec b2z negb];
+       repeat match goal with H : _ = _ :> list _ |- _ => rewrite H in * end; cbn [length] in *;
+       try exact I; try (exfalso; exact Hk); try exact Hk; try lia.
+  cbn [b2z] in *. destruct Hk as [Hk|[Hk Hk2]]; [left|right; split; [|exact Hk2]]; lia.
+Qed.
+
+(** * the bound *)
+Lemma K_store s g i : K s g -> nth_error (thr s) i = Some PStoreIdle -> g i = true.
+Proof.
+  intros HK Hp. destruct (g i) eqn:E; [reflexivity|]. destruct (HK i _ Hp E).
+Qed.
+
+Lemma steps_le_phi sched s g : Inv s -> K s g -> Z.of_nat (effective_steps sched s) <= Phi s g.
+Proof.
+  unfold effective_steps. revert s g. induction sched as [|i r IH]; intros s g HI HK; cbn [run_trace length].
+  - apply Phi_nonneg.
+  - destruct (nth_error (thr s) i) as [p|] eqn:Hp; [|exact (IH s g HI HK)].
+    destruct (step i s) as [s'|] eqn:Hs; [|exact (IH s g HI HK)].
+    pose proof (phi_step i s s' g HI (K_store s g i HK) Hs) as Hlt.
+    specialize (IH s' (gnext i s g) (step_inv _ _ _ HI Hs) (K_step _ _ _ _ HI HK Hs)). cbn [length]. lia.
+Qed.
+
+Lemma K_init s : K s (fun _ => true).
+Proof. intros i p _ H. discriminate H. Qed.
+
+Lemma sumW_init_bound s g k ths : forallb env_pc ths = true ->
+  sumW s g k (map Start ths) <= Z.of_nat (length ths) * (29 + 8 * EV s).
+Proof.
+  revert k. induction ths as [|q t IH]; intros k H; cbn [forallb map sumW length]; [lia|].
+  apply andb_true_iff in H as [Hq Ht]. specialize (IH (S k) Ht).
+  assert (W s (Start q) (g k) <= 29 + 8 * EV s); [|lia].
+  unfold W, Wp. cbn [env_active]. rewrite Hq. destruct q; cbn in Hq; try discriminate Hq; cbn [tenv]; lia.
+Qed.
+
+Lemma EV_init ths : forallb env_pc ths = true -> EV (init ths) <= 8 * Z.of_nat (length ths).
+Proof.
+  intros H. unfold EV, lenz. cbn [init thr sq uq length].
+  assert (A : sumz envrem (map Start ths) <= 4 * Z.of_nat (length ths)).
+  { induction ths as [|q t IH]; cbn [forallb map sumz length] in *; [lia|].
+    apply andb_true_iff in H as [Hq Ht]. specialize (IH Ht).
+    destruct q; cbn in Hq; try discriminate Hq; cbn [envrem]; lia. }
+  assert (B : cnt is_decp (map Start ths) = 0) by (clear; induction ths as [|q t IH]; cbn [map cnt is_decp b2z]; lia).
+  lia.
+Qed.
+
+Theorem termination ths sched : forallb env_pc ths = true ->
+  (effective_steps sched (init ths) <= 64 * (length ths + 1) * (length ths + 1))%nat.
+Proof.
+  intros He.
+  pose proof (steps_le_phi sched (init ths) (fun _ => true) (init_inv _ He) (K_init _)) as H.
+  unfold Phi in H. pose proof (sumW_init_bound (init ths) (fun _ => true) 0 ths He) as H1.
+  pose proof (EV_init ths He) as H2. pose proof (EV_nonneg (init ths)) as H3.
+  assert (HG : GM (init ths) = 0).
+  { unfold GM, lenz. cbn [init thr sq uq length].
+    assert (B : cnt is_held (map Start ths) = 0) by (clear; induction ths as [|q t IH]; cbn [map cnt is_held b2z]; lia).
+    lia. }
+  cbn [init thr] in H. cbn [init thr] in H1. nia.
+Qed.
+
+
+(** * every execution can be completed, and a completed execution is terminal *)
+Lemma non_done_steps s i p : nth_error (thr s) i = Some p -> p <> Done -> exists s', step i s = Some s'.
+Proof.
+  intros Hp Hd. unfold step. rewrite Hp.
+  destruct p as [k|sys m|sys| | | | | |m|m| | |m|m| | |u|u| | ]; try congruence; try destruct sys; cbv zeta;
+    repeat match goal with
+    | |- exists _, (if ?b then _ else _) = Some _ => destruct b
+    | |- exists _, match ?l with [] => _ | _ :: _ => _ end = Some _ => destruct l
+    end; eexists; reflexivity.
+Qed.
+
+Lemma done_or_not (l : list pc) :
+  (forall i p, nth_error l i = Some p -> p = Done) \/ (exists i p, nth_error l i = Some p /\ p <> Done).
+Proof.
+  induction l as [|h t IH].
+  - left. intros [|i] p H; discriminate H.
+  - assert (Hh : h = Done \/ h <> Done) by (destruct h; (left; reflexivity) || (right; discriminate)).
+    destruct Hh as [->|Hh].
+    + destruct IH as [IH|(i & p & Hi & Hp)].
+      * left. intros [|i] p H; [inversion H; reflexivity|exact (IH i p H)].
+      * right. exists (S i), p. split; assumption.
+    + right. exists 0%nat, h. split; [reflexivity|exact Hh].
+Qed.
+
+Lemma all_done_terminal s : (forall i p, nth_error (thr s) i = Some p -> p = Done) -> terminal s.
+Proof.
+  intros H i. unfold step. destruct (nth_error (thr s) i) as [p|] eqn:Hp; [|reflexivity].
+  rewrite (H i p Hp). reflexivity.
+Qed.
+
+Lemma can_finish_aux n : forall s g, Inv s -> K s g -> Phi s g <= Z.of_nat n ->
+  exists sched, terminal (run sched s).
+Proof.
+  induction n as [|n IH]; intros s g HI HK Hn.
+  - destruct (done_or_not (thr s)) as [D|(i & p & Hi & Hp)]; [exists []; apply all_done_terminal, D|].
+    destruct (non_done_steps s i p Hi Hp) as (s' & Hs).
+    pose proof (phi_step i s s' g HI (K_store s g i HK) Hs). pose proof (Phi_nonneg s' (gnext i s g)). lia.
+  - destruct (done_or_not (thr s)) as [D|(i & p & Hi & Hp)]; [exists []; apply all_done_terminal, D|].
+    destruct (non_done_steps s i p Hi Hp) as (s' & Hs).
+    pose proof (phi_step i s s' g HI (K_store s g i HK) Hs) as Hlt.
+    destruct (IH s' (gnext i s g) (step_inv _ _ _ HI Hs) (K_step _ _ _ _ HI HK Hs) ltac:(lia)) as (sched & Ht).
+    exists (i :: sched). rewrite run_cons. unfold step_or_stay. rewrite Hs. exact Ht.
+Qed.
+
+Lemma run_K sched : forall s g, Inv s -> K s g -> exists g', K (run sched s) g'.
+Proof.
+  induction sched as [|i r IH]; intros s g HI HK; [exists g; exact HK|].
+  rewrite run_cons. unfold step_or_stay. destruct (step i s) as [s'|] eqn:Hs; [|exact (IH s g HI HK)].
+  exact (IH s' (gnext i s g) (step_inv _ _ _ HI Hs) (K_step _ _ _ _ HI HK Hs)).
+Qed.
+
+Theorem can_finish s : reachable s -> exists sched, terminal (run sched s).
+Proof.
+  intros (ths & sched & He & <-).
+  destruct (run_K sched _ _ (init_inv _ He) (K_init _)) as (g & HK).
+  pose proof (run_inv sched _ (init_inv _ He)) as HI.
+  apply (can_finish_aux (Z.to_nat (Phi (run sched (init ths)) g)) _ g HI HK).
+  pose proof (Phi_nonneg (run sched (init ths)) g). lia.
+Qed.
+
+Lemma reachable_continue s sched : reachable s -> reachable (run sched s).
+Proof.
+  intros (ths & sched0 & He & <-). exists ths, (sched0 ++ sched). split; [exact He|].
+  unfold run. apply fold_left_app.
+Qed.
